@@ -1,5 +1,5 @@
 @unit cw1subkeys
-@shim core.rs cw_utils.rs cw2.rs std_adapters.rs range.rs
+@shim core.rs cw_utils.rs std_more.rs cw2.rs std_adapters.rs range.rs
 @properties C07 C08 C16 C17 C20
 
 pub mod cw1_whitelist {
@@ -623,4 +623,24 @@ pub open spec fn item_live(x: StdResult<(Addr, Allowance)>, b: BlockInfo) -> boo
     ensures res.spender@ == __p3_0.0@ && res.permissions == __p3_0.1
 @prefix
     broadcast use string_conv, ax_bytes_from_string;
+@end
+
+// ===================================================================== the query entry point routes every message to its query function
+@enum contracts/cw1-subkeys/src/msg.rs QueryMsg [noderive]
+impl JsonT for AdminListResponse { uninterp spec fn json(self) -> Seq<u8>; uninterp spec fn unjson(b: Seq<u8>) -> Option<Self>; }
+impl JsonT for CanExecuteResponse { uninterp spec fn json(self) -> Seq<u8>; uninterp spec fn unjson(b: Seq<u8>) -> Option<Self>; }
+impl JsonT for Allowance { uninterp spec fn json(self) -> Seq<u8>; uninterp spec fn unjson(b: Seq<u8>) -> Option<Self>; }
+impl JsonT for Permissions { uninterp spec fn json(self) -> Seq<u8>; uninterp spec fn unjson(b: Seq<u8>) -> Option<Self>; }
+impl JsonT for AllAllowancesResponse { uninterp spec fn json(self) -> Seq<u8>; uninterp spec fn unjson(b: Seq<u8>) -> Option<Self>; }
+impl JsonT for AllPermissionsResponse { uninterp spec fn json(self) -> Seq<u8>; uninterp spec fn unjson(b: Seq<u8>) -> Option<Self>; }
+@fn contracts/cw1-subkeys/src/contract.rs query
+@ensures C16.query_routes C07 C08 C17 C20
+    r is Ok ==> match msg {
+        QueryMsg::AdminList {} => exists|x: AdminListResponse| r->Ok_0@ == x.json() && call_ensures(query_admin_list, (deps,), Ok::<AdminListResponse, StdError>(x)),
+        QueryMsg::Allowance { spender } => exists|x: Allowance| r->Ok_0@ == x.json() && call_ensures(query_allowance, (deps, env, spender), Ok::<Allowance, StdError>(x)),
+        QueryMsg::Permissions { spender } => exists|x: Permissions| r->Ok_0@ == x.json() && call_ensures(query_permissions, (deps, spender), Ok::<Permissions, StdError>(x)),
+        QueryMsg::CanExecute { sender, msg } => exists|x: CanExecuteResponse| r->Ok_0@ == x.json() && call_ensures(query_can_execute, (deps, env, sender, msg), Ok::<CanExecuteResponse, StdError>(x)),
+        QueryMsg::AllAllowances { start_after, limit } => exists|x: AllAllowancesResponse| r->Ok_0@ == x.json() && call_ensures(query_all_allowances, (deps, env, start_after, limit), Ok::<AllAllowancesResponse, StdError>(x)),
+        QueryMsg::AllPermissions { start_after, limit } => exists|x: AllPermissionsResponse| r->Ok_0@ == x.json() && call_ensures(query_all_permissions, (deps, start_after, limit), Ok::<AllPermissionsResponse, StdError>(x)),
+    }
 @end
